@@ -17,7 +17,8 @@ func (f *FunctionCallExpression) String() string {
 	var buf bytes.Buffer
 
 	buf.WriteString(f.LeadingComment(inline))
-	buf.WriteString(f.Function.String() + "(")
+	// The call shares its comments with the function name (see the parser): print the bare name
+	buf.WriteString(f.Function.Value + "(")
 	for i, a := range f.Arguments {
 		buf.WriteString(a.String())
 		if i != len(f.Arguments)-1 {
